@@ -169,6 +169,12 @@ func runC18(c *core.Ctx) {
 		return
 	}
 
+	// ---- "every comparison trait that is a total order": the library's own ord.Int / ord.String, which a list is
+	// usually built with, are total orders (Compare answers LT/EQ/GT exactly for a<b / a==b / a>b) - shared with C17
+	c.Doc("ord-constants", 1, "LT, EQ, GT are pairwise distinct constants")
+	c.Doc("instances", 2, "ord.Int / ord.String are values of the generic instance type")
+	c.Doc("ord-decision-tree", 1, "Compare returns LT/EQ/GT exactly for a<b / a==b / a>b on every path")
+	instanceRules(c, [][3]string{{"pure/ord", "Int", "Compare"}, {"pure/ord", "String", "Compare"}})
 	// ---- the traversal's node result is nil for a key beyond the last element: guarded before every field access
 	c.Doc("nil-guard", 3, "Put/Get/Remove read fields of the traversal's node result only behind its nil test")
 	for _, fn := range []*ssa.Function{put, get, rem} {
